@@ -383,7 +383,7 @@ def check_speak(p, tag, plan, ti, si, ri):
     n = len(str(utter).split())
     desc = "plan-from=%s params=%s template=%s style=%r snippets=%d" % (tag, J(p), TEMPLATES[ti][0], STYLES[si], len(RETRIEVED[ri]))
     if n > p["tokens"]:
-        out.append(("speak:over-budget:%s" % TEMPLATES[ti][0], "utterance has %d whitespace tokens > budget %d: %r; %s" % (n, p["tokens"], utter, desc)))
+        out.append(("speak:over-budget:%s" % ("odd-whitespace-template" if TEMPLATES[ti][0] == "odd-whitespace" else "plain-template"), "utterance has %d whitespace tokens > budget %d: %r; %s" % (n, p["tokens"], utter, desc)))
     if utter2 != utter or metrics != metrics2:
         out.append(("speak:impure", "two calls differ; %s" % desc))
     if db != db0 or plan_dump(plan) != pd0:
